@@ -1093,6 +1093,25 @@ class _MatchToIf(ast.NodeTransformer):
         return out
 
 
+class _SuppressToTry(ast.NodeTransformer):
+    """`with contextlib.suppress(E1, E2): BODY`  ->  `try: BODY / except (E1, E2): pass` (the documented meaning)."""
+
+    def visit_With(self, node):
+        self.generic_visit(node)
+        if len(node.items) == 1 and node.items[0].optional_vars is None:
+            c = node.items[0].context_expr
+            if isinstance(c, ast.Call) and (_dotted(c.func) or "").split(".")[-1] == "suppress" and c.args and not c.keywords:
+                typ = c.args[0] if len(c.args) == 1 else ast.Tuple(elts=list(c.args), ctx=ast.Load())
+                h = ast.ExceptHandler(type=typ, name=None, body=[ast.Pass()])
+                t = ast.Try(body=node.body, handlers=[h], orelse=[], finalbody=[])
+                ast.copy_location(t, node)
+                ast.copy_location(h, node)
+                ast.copy_location(h.body[0], node)
+                ast.fix_missing_locations(t)
+                return t
+        return node
+
+
 class _OrDefault(ast.NodeTransformer):
     """`return C(...) or D`  ->  `t = C(...)`, `if t: return t`, `return D`;  `x = C(...) or D`  ->  `x = C(...)`, `if not x: x = D`
     (exactly what `or` means; the if-form is the one the rules read)."""
@@ -1116,6 +1135,20 @@ class _OrDefault(ast.NodeTransformer):
         out = []
         for st in stmts:
             v = getattr(st, "value", None)
+            if isinstance(st, (ast.Return, ast.Assign)) and isinstance(v, ast.IfExp) and (isinstance(st, ast.Return) or (len(st.targets) == 1 and isinstance(st.targets[0], ast.Name))):
+                # `return A if C else B` -> `if C: return A` / `return B`;  `x = A if C else B` -> if/else assignments
+                if isinstance(st, ast.Return):
+                    new = [ast.If(test=v.test, body=[ast.Return(value=v.body)], orelse=[]), ast.Return(value=v.orelse)]
+                else:
+                    mk = lambda val: ast.Assign(targets=[ast.Name(id=st.targets[0].id, ctx=ast.Store())], value=val)  # noqa: E731
+                    new = [ast.If(test=v.test, body=[mk(v.body)], orelse=[mk(v.orelse)])]
+                for nst in new:
+                    for y in ast.walk(nst):
+                        if not hasattr(y, "lineno"):
+                            ast.copy_location(y, st)
+                    ast.fix_missing_locations(nst)
+                out.extend(self._block(new))
+                continue
             if isinstance(st, (ast.Return, ast.Assign)) and isinstance(v, ast.BoolOp) and isinstance(v.op, ast.Or) and len(v.values) == 2 and isinstance(v.values[0], ast.Call) and not isinstance(v.values[1], ast.Await):
                 first, second = v.values
                 if isinstance(st, ast.Return):
@@ -1256,6 +1289,7 @@ def canonicalise(tree: ast.Module, modname: str):
                 notes.append(f"inlined new helper {k}")
             tree = _drop_unreferenced(tree, {k: v[0] for k, v in helpers.items() if k in set(inl.done)})
     tree = _MatchToIf().visit(tree)
+    tree = _SuppressToTry().visit(tree)
     tree = _OrDefault().visit(tree)
     tree = _AliasFold().visit(tree)
     tree = _Normalise().visit(tree)
